@@ -142,10 +142,26 @@ BIG_PAD = {"f1": 6 << 20, "f2": (1 << 20) + 200_000, "f3": 3 << 20, "f4": 0}
 
 
 def content(f, big=False):
+    if f in OWN:
+        return OWN[f]
     if big and BIG_PAD[f]:
         unit = b"%s padding 0123456789 abcdefghijklmnopqrstuvwxyz\n" % f.encode()
         return FILES[f] + (unit * (BIG_PAD[f] // len(unit) + 1))[: BIG_PAD[f]]
     return FILES[f]
+
+
+# "upload" schedules: build(..., upload=True) - every file is first uploaded into the store under a temporary name, the
+# transfer then files it under its digest.  Both writers stage THE SAME PATH STRING (one on the local file system, one on
+# an in-memory file system) and each has a file `own.bin` of its own content next to the shared ones.
+OWN = {"o1": b"own data of writer 1\n", "o2": b"own data of writer 2, longer\n"}
+
+
+def req_of(w, upload=False):
+    return REQ[w] + ([f"o{w}"] if upload else [])
+
+
+def fname(f):
+    return "own.bin" if f.startswith("o") else f + ".bin"
 
 
 # writer i stages {f_i, f2, f4}: f2 (and the empty f4) are shared
@@ -225,12 +241,28 @@ def main():
                 for f_ in fs_:
                     os.chown(os.path.join(r_, f_), -1, GID)
                     os.chmod(os.path.join(r_, f_), 0o664)
+        upload = bool(sc.get("upload"))
+        mfs = None
         for w in range(1, nw + 1):
             d = os.path.join(base, f"ws{w}", "data")
             os.makedirs(d)
             for f in REQ[w]:
                 with open(os.path.join(d, f + ".bin"), "wb") as fh:
                     fh.write(content(f, sc.get("big")))
+        if upload:
+            from dvc_objects.fs.memory import MemoryFileSystem
+
+            shared_path = os.path.join(base, "wsU", "data")       # the one path string both writers stage
+            os.makedirs(shared_path)
+            mfs = MemoryFileSystem()
+            for w in (1, 2):
+                for f in req_of(w, True):
+                    if w == 1:
+                        with open(os.path.join(shared_path, fname(f)), "wb") as fh:
+                            fh.write(content(f))
+                    else:
+                        mfs.fs.makedirs(shared_path, exist_ok=True)
+                        mfs.fs.pipe_file(shared_path + "/" + fname(f), content(f))
         SCHED = Sched(range(1, nw + 1))
         outcome = {}
         del errtypes[:]
@@ -244,7 +276,10 @@ def main():
                         raise OSError("setfsuid failed")
                     libc.setfsuid(GID + w)  # the second call returns the previous value: must be ours now
                 odb = LocalHashFileDB(fs, STORE, state=state, **({"shared": True} if mixed else {}))
-                staging, _m, obj = build(odb, os.path.join(base, f"ws{w}", "data"), fs, "md5")
+                if upload:
+                    staging, _m, obj = build(odb, shared_path, fs if w == 1 else mfs, "md5", upload=True)
+                else:
+                    staging, _m, obj = build(odb, os.path.join(base, f"ws{w}", "data"), fs, "md5")
                 res = transfer(staging, odb, {obj.hash_info}, shallow=False)
                 outcome[w] = {"ok": not res.failed, "failed": sorted(h.value for h in res.failed), "dir": obj.hash_info.value, "exc": ""}
             except BaseException as exc:  # noqa: BLE001 - the writer's failure is the observation
@@ -282,6 +317,8 @@ def main():
         status = SCHED.run(pick)
         for t in threads:
             t.join(timeout=60)
+        if mfs is not None and mfs.fs.exists(os.path.join(base, "wsU")):
+            mfs.fs.rm(os.path.join(base, "wsU"), recursive=True)
         state.close()
         results.append({"schedule": sc, "status": status, "outcome": {str(k): v for k, v in outcome.items()},
                         "errtypes": sorted({e[1] for e in errtypes}), "errnos": sorted(set(errnos)),
